@@ -2,6 +2,7 @@ package sshkeyfmt
 
 import (
 	"bytes"
+	"crypto/ed25519"
 	"crypto/elliptic"
 	"reflect"
 	"strings"
@@ -190,3 +191,37 @@ func TestKnownHostsLine(t *testing.T) {
 		t.Error("type mismatch accepted")
 	}
 }
+
+func TestLengthOffsetsAndSignedBytes(t *testing.T) {
+	cb, _ := B64Decode(katCert)
+	c, err := Decode(cb)
+	if err != nil {
+		t.Fatal(err)
+	}
+	offs := LengthOffsets(c)
+	// every reported offset holds a length that fits in the blob, and zeroing any of them breaks or changes the parse
+	seen := map[int]bool{}
+	for _, o := range offs {
+		if seen[o] {
+			t.Errorf("offset %d reported twice", o)
+		}
+		seen[o] = true
+		l := int(cb[o])<<24 | int(cb[o+1])<<16 | int(cb[o+2])<<8 | int(cb[o+3])
+		if o+4+l > len(cb) {
+			t.Errorf("offset %d: length %d runs past the blob", o, l)
+		}
+	}
+	// type, nonce, key, key id, principals(+2), critical(+3), extensions(+8), reserved, signature key(+2), signature(+2)
+	if len(offs) != 3+1+3+4+9+1+3+3 {
+		t.Errorf("%d offsets: %v", len(offs), offs)
+	}
+	// the CA signature of the OpenSSH-made certificate verifies over SignedBytes
+	ca, _ := Decode(c.Cert.SignatureKey)
+	sig := c.Cert.Signature
+	raw := sig[len(sig)-64:]
+	if !ed25519Verify(ca.Pub, SignedBytes(c), raw) {
+		t.Error("CA signature does not verify over SignedBytes")
+	}
+}
+
+func ed25519Verify(pub, msg, sig []byte) bool { return ed25519.Verify(ed25519.PublicKey(pub), msg, sig) }
